@@ -8,7 +8,7 @@
    publishing interval has elapsed; [avail ops]: every timer tick is directly preceded by a publish
    request; states: 0 Closed 2 Normal 3 Late 4 KeepAlive. *)
 From Coq Require Import List ZArith Bool.
-From OV Require Import C22.Model C22.ProofsTable C22.ProofsTrace C22.ProofsExpiry C22.ProofsAlive C22.Proofs.
+From OV Require Import C22.Model C22.ProofsTable C22.ProofsTrace C22.ProofsExpiry C22.ProofsAlive C22.ProofsSchedule C22.Proofs.
 Import ListNotations.
 Open Scope Z_scope.
 
@@ -31,6 +31,16 @@ Theorem C22_keepalive : forall k l ivl ops, 1 <= k -> 3 * k <= l -> 1 <= ivl -> 
      exists p, (i <= p < i + m)%nat /\ nth p (map ka_of t) false = true).
 Proof. exact keepalive_holds. Qed.
 Print Assumptions C22_keepalive.
+
+(* First half, exact form.  A publish request before every tick, ticks one publishing interval
+   apart (requests_history): the responses of interval j+1 (operation 2j+3) contain a keep-alive
+   exactly when j+1 is 1, kac+2, kac+2+kac, kac+2+2*kac, ... (ka_schedule); a publish request
+   itself (operation 2j+2) is never answered with one.  For every number n of intervals. *)
+Theorem C22_keepalive_schedule : forall k l ivl n j, 1 <= k -> 3 * k <= l -> 1 <= ivl -> (j < n)%nat ->
+  let kas := map ka_of (fst (trace_gen true true ivl 0 (init_world k l true) (requests_history ivl n))) in
+  nth (2 * j + 2) kas false = false /\ nth (2 * j + 3) kas false = ka_schedule k (Z.of_nat j + 1).
+Proof. exact keepalive_schedule. Qed.
+Print Assumptions C22_keepalive_schedule.
 
 (* Second half, exact form.  No publish requests, ticks one publishing interval apart, publishing
    enabled or not: after the creating tick the subscription is Late at intervals 1 .. life-1 and
